@@ -18,24 +18,46 @@ UNDECIDED = [
 TRUSTED = ["CPython ast parser and re._parser (regex ASTs)", "list.pop / divmod / str.partition semantics", "Text.render applies spans in list order, later spans winning (C05 mechanism)"]
 
 
+def _resolve_regex(m, e, fn=None, depth=0):
+    """re.compile(...) call that expression e denotes: inline, a module global, or a default argument / local of fn"""
+    c = regexast.compile_call(e)
+    if c is not None:
+        return c
+    if depth > 3:
+        return None
+    if isinstance(e, ast.Name):
+        if fn is not None:
+            d = default_args(fn.node)
+            if e.id in d:
+                return _resolve_regex(m, d[e.id], None, depth + 1)
+        if m.global_assign_count(e.id) == 1:
+            return _resolve_regex(m, m.global_assign(e.id), None, depth + 1)
+    return None
+
+
 def _regexes(ctx):
+    """(module, RE_TAGS compile call, escape function, (callback expr, escape regex compile call))"""
     m = ctx.repo.mod("markup")
     tags = regexast.compile_call(m.global_assign("RE_TAGS"))
     esc_fn = m.fn("escape")
-    d = default_args(esc_fn.node)
+    aliases = dict(default_args(esc_fn.node))
+    aliases.update(alias_map(esc_fn.node))
     esc = None
-    for k, v in d.items():
-        c = regexast.compile_call(v)
-        if c is not None:
-            esc = (k, c, v)
+    for c in walk_local(esc_fn.node):
+        if isinstance(c, ast.Call) and len(c.args) == 2:
+            f = expand_alias(c.func, aliases)
+            if isinstance(f, ast.Attribute) and f.attr == "sub":
+                rx = _resolve_regex(m, f.value, esc_fn)
+                if rx is not None:
+                    esc = (c.args[0], rx, c)
     if tags is None or esc is None:
-        raise AnchorVanished("RE_TAGS / escape()'s regex literal not found in markup.py")
+        raise AnchorVanished("RE_TAGS / the <regex>.sub(callback, markup) call of escape() not found in markup.py")
     return m, tags, esc_fn, esc
 
 
 def r4_1(ctx):
     ctx.rule("R4.1", "escape() and the tokenizer agree on what a tag is: the regex bound to escape's default argument and RE_TAGS have the same normal form once capture groups are flattened; group arities match their unpack sites; the replacement doubles the backslashes and adds exactly one; the tokenizer halves them (divmod by 2) and treats an odd count as an escape")
-    m, tags, esc_fn, (esc_name, esc, esc_default) = _regexes(ctx)
+    m, tags, esc_fn, (esc_cb, esc, _sub_call) = _regexes(ctx)
     sp_t, sp_e = regexast.parse_call(tags), regexast.parse_call(esc)
     nf_t, nf_e = regexast.normal_form(sp_t), regexast.normal_form(sp_e)
     ctx.check(nf_t == nf_e, "markup:RE_TAGS", f"RE_TAGS={tags.args[0].value.strip()!r} vs escape={esc.args[0].value!r}", f"{m.relpath}:{tags.lineno}",
@@ -47,40 +69,81 @@ def r4_1(ctx):
         if isinstance(n, ast.Assign) and isinstance(n.targets[0], ast.Tuple) and norm(n.value) == "match.groups()":
             k = len(n.targets[0].elts)
             ctx.check(k == regexast.group_count(sp_t), parse.fq, norm(n), f"{m.relpath}:{n.lineno}", f"_parse unpacks {k} groups of RE_TAGS", f"_parse unpacks {k} names from match.groups() but RE_TAGS has {regexast.group_count(sp_t)} groups (ValueError on every tag)")
-    inner = m.functions.get("escape.<locals>.escape_backslashes")
+    from ..astutil import concat_parts, helper_closed_return
+    cb = esc_cb
+    inner = None
+    if isinstance(cb, ast.Name):
+        inner = m.functions.get(f"escape.<locals>.{cb.id}") or m.functions.get(cb.id)
     if inner is None:
-        raise AnchorVanished("escape.<locals>.escape_backslashes not found")
-    names = None
+        raise AnchorVanished("escape(): the replacement callback passed to <regex>.sub was not found")
     for n in walk_local(inner.node):
         if isinstance(n, ast.Assign) and isinstance(n.targets[0], ast.Tuple) and norm(n.value).endswith(".groups()"):
-            names = [norm(e) for e in n.targets[0].elts]
-            ctx.check(len(names) == regexast.group_count(sp_e), inner.fq, norm(n), f"{m.relpath}:{n.lineno}", f"escape unpacks {len(names)} groups", f"escape_backslashes unpacks {len(names)} names but its regex has {regexast.group_count(sp_e)} groups")
-    rets = [r for r in walk_local(inner.node) if isinstance(r, ast.Return)]
+            k = len(n.targets[0].elts)
+            ctx.check(k == regexast.group_count(sp_e), inner.fq, norm(n), f"{m.relpath}:{n.lineno}", f"escape unpacks {k} groups", f"the escape callback unpacks {k} names but its regex has {regexast.group_count(sp_e)} groups")
+    closed = helper_closed_return(inner.node)
     ok = False
-    if names and len(names) == 2 and len(rets) == 1:
-        parts = fstring_parts(rets[0].value)
-        if parts is not None:
-            flat = [(norm(p[1]) if isinstance(p, tuple) else p) for p in parts]
-            ok = flat == [names[0], names[0], "\\", names[1]]
-    ctx.check(ok, inner.fq, norm(rets[0]) if rets else "?", inner.where, "replacement = backslashes*2 + one backslash + tag text",
+    detail = "?"
+    if closed is not None and inner.params:
+        mp = inner.params[0]
+        parts = concat_parts(closed)
+        detail = norm(closed)
+        g1, g2 = ("expr", f"{mp}.group(1)"), ("expr", f"{mp}.group(2)")
+        ok = parts == [g1, g1, "\\", g2] and regexast.group_count(sp_e) == 2
+    ctx.check(ok, inner.fq, detail, inner.where, "replacement = backslashes*2 + one backslash + tag text",
               "escape()'s replacement is not `2 x existing backslashes + '\\' + tag`: the tokenizer's parity rule no longer sees an odd count")
-    # the group-1 subpattern of both is the backslash run directly before '['
-    # tokenizer parity
-    dm = None
-    aliases = alias_map(parse.node)
-    for n in walk_local(parse.node):
-        if isinstance(n, ast.Assign) and isinstance(n.value, ast.Call) and norm(expand_alias(n.value.func, aliases)) == "divmod" and isinstance(n.targets[0], ast.Tuple):
-            dm = n
-    if dm is None:
-        raise AnchorVanished("_parse: divmod(len(escapes), 2) not found")
-    okd = const_int(dm.value.args[1]) == 2 and norm(dm.value.args[0]).startswith("len(")
-    q, r = (norm(e) for e in dm.targets[0].elts)
-    ctx.check(okd, parse.fq, norm(dm), f"{m.relpath}:{dm.lineno}", "backslash run split into pairs and a remainder", "the backslash run is not divided by 2: escaped backslashes / escaped tags are miscounted")
-    src = norm(parse.node)
-    ctx.check(f"'\\\\' * {q}" in src and f"if {r}:" in src, parse.fq, "literal backslashes / escape branch", parse.where, "emits one backslash per pair; an odd remainder makes the tag literal",
-              "the tokenizer no longer emits one backslash per pair and a literal tag for an odd remainder")
-    # literal tag text = full match minus the backslashes
-    ctx.check("full_text[len(escapes):]" in src, parse.fq, "full_text[len(escapes):]", parse.where, "an escaped tag is emitted verbatim without its backslashes", "an escaped tag is not emitted as the matched text minus the backslash run")
+    # tokenizer parity - decided on the path normal form of _parse's loop body (insensitive to divmod vs // and %,
+    # nested vs flat tests, temporaries, span() vs start()/end())
+    from ..yieldpaths import Unsupported, emissions, paths_of, select, show
+    try:
+        P = paths_of(parse.node)
+    except Unsupported as u:
+        raise AnalysisError(f"markup._parse uses a statement the path normal form does not cover ({u})")
+    loops = {e for p_ in P for e in p_ if e[0] == "loop" and "finditer" in e[2]}
+    if len(loops) != 1:
+        raise AnchorVanished("_parse: the loop over RE_TAGS.finditer(markup) was not found")
+    lp = next(iter(loops))
+    mv = lp[1]
+    ESC = f"{mv}.group(2)"
+    Q, R = f"len({ESC}) // 2", f"len({ESC}) % 2"
+    y_bs = ("yield", f"(start, '\\\\' * ({Q}), None)")
+    y_lit = ("yield", f"(start, {mv}.group(1)[len({ESC}):], None)")
+    bodies = lp[3]
+
+    def tag_yields(b):
+        return [e for e in b if e[0] == "yield" and "Tag(" in e[1]]
+    ok, bad = True, None
+    sel = select(bodies, {ESC: True, Q: True})
+    okq = bool(sel)
+    for b in sel:
+        em = emissions(b)
+        if y_bs not in em:
+            okq, bad = False, b
+            continue
+        i = em.index(y_bs)
+        adv = [j for j, e in enumerate(em) if e[0] == "set" and e[1] == "start" and e[2].replace(" ", "") in (f"startAdd{Q}*2".replace(" ", ""), f"startAdd2*({Q})".replace(" ", ""), f"startAdd({Q})*2".replace(" ", ""))]
+        later_yields = [j for j, e in enumerate(em) if j > i and e[0] == "yield"]
+        if not adv or (later_yields and adv[0] > later_yields[0]) or adv[0] < i:
+            okq, bad = False, b
+    for b in select(bodies, {ESC: True, Q: False}) + select(bodies, {ESC: False, Q: False, R: False}):
+        if y_bs in emissions(b):
+            okq, bad = False, b
+    ctx.check(okq, parse.fq, show(bad)[:300] if bad else "backslash pairs", parse.where, "every pair of backslashes before a tag is emitted as one literal backslash and the position advanced by two per pair",
+              "the tokenizer no longer emits exactly one backslash per pair of backslashes before a tag (halving by 2) and advances past them")
+    okr, bad = True, None
+    sel = select(bodies, {ESC: True, R: True})
+    okr = bool(sel)
+    for b in sel:
+        if y_lit not in emissions(b) or tag_yields(b):
+            okr, bad = False, b
+    sel2 = select(bodies, {ESC: True, R: False}) + select(bodies, {ESC: False, Q: False, R: False})
+    okr = okr and bool(sel2)
+    for b in sel2:
+        if y_lit in emissions(b) or len(tag_yields(b)) != 1:
+            okr, bad = False, b
+    ctx.check(okr, parse.fq, show(bad)[:300] if bad else "odd backslash escapes the tag", parse.where, "an odd backslash makes the tag literal text (the match minus its backslashes); otherwise exactly one Tag is emitted",
+              "the tokenizer no longer treats exactly an odd number of backslashes as an escaped tag emitted verbatim without its backslashes")
+    okp = all(any(e[0] == "set" and e[1] == "position" and e[2] == f"{mv}.end()" for e in b) for b in bodies)
+    ctx.check(okp, parse.fq, "position = end", parse.where, "the cursor moves to the end of every match", "_parse does not advance `position` to the end of the match on every path: text is emitted twice or skipped")
 
 
 def r4_2(ctx):
@@ -94,6 +157,16 @@ def r4_2(ctx):
                 raises.append((f, n))
     ctx.floor(len(raises), 1, "raise MarkupError sites")
     aliases = alias_map(render.node)
+    # the by-name pop: the (nested or module-level) function called in render that raises KeyError
+    ps = None
+    by_name = None
+    for c in walk_local(render.node):
+        if isinstance(c, ast.Call) and isinstance(c.func, ast.Name):
+            cand = m.functions.get(f"render.<locals>.{c.func.id}") or m.functions.get(c.func.id)
+            if cand is not None and any(isinstance(x, ast.Raise) and x.exc is not None and "KeyError" in norm(x.exc) for x in walk_local(cand.node)):
+                ps, by_name = cand, c.func.id
+    if ps is None:
+        raise AnchorVanished("render(): the by-name pop helper (a function raising KeyError when no open tag matches) was not found")
     for f, r in raises:
         h = None
         cur = m.parent_of.get(r)
@@ -110,7 +183,7 @@ def r4_2(ctx):
         body_calls = [norm(expand_alias(c.func, aliases)) for s in tr.body for c in ast.walk(s) if isinstance(c, ast.Call)]
         ht = norm(h.type) if h.type is not None else "BaseException"
         if ht == "KeyError":
-            ok = any(c == "pop_style" for c in body_calls)
+            ok = any(c == by_name for c in body_calls)
         elif ht == "IndexError":
             ok = any(c == "style_stack.pop" for c in body_calls)
         else:
@@ -121,42 +194,53 @@ def r4_2(ctx):
     for n in walk_local(render.node):
         if isinstance(n, ast.Call):
             cn = norm(expand_alias(n.func, aliases))
-            if cn in ("pop_style", "style_stack.pop") and not n.args == [] or cn == "pop_style":
-                pass
-            if cn not in ("pop_style", "style_stack.pop"):
+            if cn not in (by_name, "style_stack.pop"):
                 continue
             # skip the drain loop after the token loop (guarded by `while style_stack`)
             anc = list(_ancestors(m, n, render.node))
             if any(isinstance(a, ast.While) and norm(a.test) == "style_stack" for a in anc):
                 continue
             tr = next((a for a in anc if isinstance(a, ast.Try)), None)
-            want = "KeyError" if cn == "pop_style" else "IndexError"
+            want = "KeyError" if cn == by_name else "IndexError"
             ok = tr is not None and any(h.type is not None and norm(h.type) == want for h in tr.handlers) and any(n in list(ast.walk(s)) for s in tr.body)
             ctx.check(ok, render.fq, short(n), f"{m.relpath}:{n.lineno}", f"pop inside try/except {want}", f"`{short(n)}` is not inside a try that converts {want}: a closing tag with nothing to close raises {want} instead of MarkupError")
-    # pop_style scans from the top
-    ps = m.functions.get("render.<locals>.pop_style")
-    if ps is None:
-        raise AnchorVanished("render.<locals>.pop_style not found")
+    # the by-name pop scans from the top
+    stack = "style_stack"
+    if ps.parent is None and ps.params:
+        # module-level helper: the stack is the parameter that receives render's style_stack
+        for c in walk_local(render.node):
+            if isinstance(c, ast.Call) and isinstance(c.func, ast.Name) and c.func.id == by_name:
+                for i, a in enumerate(c.args):
+                    if norm(a) == "style_stack" and i < len(ps.params):
+                        stack = ps.params[i]
+    ps_aliases = dict(aliases) if ps.parent is not None else {}
+    ps_aliases.update(alias_map(ps.node))
     loops = [n for n in walk_local(ps.node) if isinstance(n, ast.For)]
     ok = False
     detail = "no loop"
     for lp in loops:
         it = lp.iter
         detail = norm(it)
-        if isinstance(it, ast.Call) and call_name(it) == "enumerate" and it.args and isinstance(it.args[0], ast.Call) and call_name(it.args[0]) == "reversed" and norm(it.args[0].args[0]) == "style_stack":
+        rets = [r for r in ast.walk(lp) if isinstance(r, ast.Return)]
+        if isinstance(it, ast.Call) and call_name(it) == "enumerate" and it.args and isinstance(it.args[0], ast.Call) and call_name(it.args[0]) == "reversed" and norm(it.args[0].args[0]) == stack:
             start = const_int(it.args[1]) if len(it.args) > 1 else 0
             idx = norm(lp.target.elts[0]) if isinstance(lp.target, ast.Tuple) else None
-            rets = [r for r in ast.walk(lp) if isinstance(r, ast.Return)]
             for r in rets:
                 v = r.value
-                if isinstance(v, ast.Call) and norm(expand_alias(v.func, aliases)) in ("style_stack.pop", "pop") and v.args:
+                if isinstance(v, ast.Call) and norm(expand_alias(v.func, ps_aliases)) == f"{stack}.pop" and v.args:
                     a = v.args[0]
                     if start == 1 and norm(a) == f"-{idx}":
                         ok = True
                     if start == 0 and norm(a) in (f"-{idx} - 1", f"-({idx} + 1)", f"~{idx}"):
                         ok = True
+        # for i in range(len(S) - 1, -1, -1): if S[i]...: return S.pop(i)
+        if isinstance(it, ast.Call) and call_name(it) == "range" and len(it.args) == 3 and norm(it.args[0]) == f"len({stack}) - 1" and norm(it.args[1]) == "-1" and norm(it.args[2]) == "-1" and isinstance(lp.target, ast.Name):
+            for r in rets:
+                v = r.value
+                if isinstance(v, ast.Call) and norm(expand_alias(v.func, ps_aliases)) == f"{stack}.pop" and len(v.args) == 1 and norm(v.args[0]) == lp.target.id:
+                    ok = True
     ctx.check(ok, ps.fq, f"for ... in {detail}", ps.where, "by-name close searches from the top of the stack and pops that entry",
-              f"pop_style iterates `{detail}`: an explicit closing tag must close the MOST RECENT open tag of that name (scan reversed(style_stack), pop(-index))")
+              f"{ps.name} iterates `{detail}`: an explicit closing tag must close the MOST RECENT open tag of that name (scan from the top of the stack and pop that entry)")
     last = ps.node.body[-1]
     ctx.check(isinstance(last, ast.Raise) and "KeyError" in norm(last), ps.fq, norm(last), ps.where, "no match -> KeyError (converted by the caller)", "pop_style does not raise KeyError when no open tag matches")
     # name comparison uses the normalised name on both sides
@@ -177,6 +261,8 @@ def r4_3(ctx):
     render = m.fn("render")
     g = cfgmod.build(render.node)
     drains = [n for n in g.stmt_nodes() if n.kind == "test" and isinstance(n.stmt, ast.While) and norm(n.stmt.test) == "style_stack"]
+    # equivalent form: `for index, tag in reversed(style_stack)` / `in style_stack` after the token loop (every entry visited once)
+    drains += [n for n in g.stmt_nodes() if n.kind == "for" and norm(n.stmt.iter) in ("reversed(style_stack)", "style_stack") and n.stmt.lineno > _token_loop_line(render)]
     ctx.check(len(drains) == 1, render.fq, "while style_stack:", render.where, "drain loop present", "render() no longer drains the open-tag stack at the end: unclosed tags lose their styling")
     if not drains:
         return
@@ -195,7 +281,8 @@ def r4_3(ctx):
                     defs = rd.get(nid, {}).get(e.id, set())
                     if defs and all(norm(getattr(g.nodes[d].stmt, "value", None) or ast.Constant(value=0)) == "len(text)" and g.nodes[d].lineno > _token_loop_line(render) for d in defs):
                         end_ok = True
-    ctx.check("style_stack.pop()" in body and end_ok, render.fq, short(w), f"{m.relpath}:{w.lineno}", "each leftover tag becomes a span ending at the final text length",
+    visits_all = isinstance(w, ast.For) or "style_stack.pop()" in body
+    ctx.check(visits_all and end_ok, render.fq, short(w), f"{m.relpath}:{w.lineno}", "each leftover tag becomes a span ending at the final text length",
               "the drain loop does not pop every leftover tag into a span that ends at len(text)")
     # return text dominated by the loop's exit
     for n in g.stmt_nodes():
